@@ -704,3 +704,104 @@ pub fn body_length() -> Value {
     json!({"violates": first_bad.is_some(), "input": {"request": "GET /bkt/key", "first_failing_body": first_bad},
            "expected": "not finished before reading, size hint upper bound absent or >= 19, 19 bytes read", "observed": all, "replay_args": ["body-length"]})
 }
+
+// ---- xml-payload: string members of an XML request payload (C02) ---------------------------------------------------------------
+/// xml-payload: PutBucketTagging whose tag values carry leading / trailing blanks, line feeds, escaped characters, an empty
+/// element, comments between elements and indentation: the backend must see exactly the values the document denotes
+pub fn xml_payload() -> Value {
+    let cases: Vec<(&str, &str, &str)> = vec![
+        // (name, <Value> element as written, the value it denotes)
+        ("plain", "<Value>v1</Value>", "v1"),
+        ("leading and trailing blanks", "<Value>  padded  </Value>", "  padded  "),
+        ("trailing line feed", "<Value>line\n</Value>", "line\n"),
+        ("escaped characters", "<Value>a &lt; b &amp;&amp; c &gt; d</Value>", "a < b && c > d"),
+        ("empty element", "<Value/>", ""),
+        ("empty text", "<Value></Value>", ""),
+        ("inner blanks", "<Value>a  b</Value>", "a  b"),
+    ];
+    let mut all = Vec::new(); let mut first_bad: Option<&str> = None;
+    for (name, elem, want) in &cases {
+        let body = format!("<?xml version=\"1.0\" encoding=\"UTF-8\"?>\n<!-- a comment -->\n<Tagging xmlns=\"http://s3.amazonaws.com/doc/2006-03-01/\">\n  <TagSet>\n    <Tag>\n      <Key>k</Key>\n      {elem}\n    </Tag>\n  </TagSet>\n</Tagging>\n");
+        let o = call("PUT", "/bkt?tagging", &[], body.clone().into_bytes(), "ok_default");
+        let input = o.inputs.first().cloned().unwrap_or_default();
+        let ok = o.calls.iter().any(|c| c.starts_with("put_bucket_tagging@")) && input.contains(&format!("value: Some({want:?})")) || input.contains(&format!("value: {want:?}"));
+        all.push(json!({"case": name, "element": elem, "denotes": want, "status": o.status, "input": input.chars().take(300).collect::<String>(), "ok": ok}));
+        if !ok && first_bad.is_none() { first_bad = Some(name); }
+    }
+    json!({"violates": first_bad.is_some(), "input": {"request": "PUT /bkt?tagging", "first_failing_case": first_bad},
+           "expected": "the tag value the backend receives is exactly the character data of <Value>", "observed": all, "replay_args": ["xml-payload"]})
+}
+
+// ---- keep-alive: CompleteMultipartUpload's keep-alive body read the way hyper reads a body (C03) -------------------------------
+/// keep-alive: CompleteMultipartUpload answered with extra response headers. The body is read like hyper's HTTP/1 dispatcher does:
+/// `is_end_stream()` is asked before every `poll_frame`, and reading stops as soon as it says true. The final response's headers
+/// travel as the TRAILERS frame of this body, so it must have been handed out before the body reports its end.
+pub fn keep_alive() -> Value {
+    let rec = Recorder::default();
+    *rec.mode.lock().unwrap() = "ok_header:x-amz-version-id=v-77".to_owned();
+    let log = rec.log.clone();
+    let svc = s3s::service::S3ServiceBuilder::new(rec).build();
+    let xml = "<CompleteMultipartUpload><Part><ETag>\"e1\"</ETag><PartNumber>1</PartNumber></Part></CompleteMultipartUpload>";
+    let req = http::Request::builder().method("POST").uri("/bkt/key?uploadId=u1").header("content-length", xml.len().to_string()).body(s3s::Body::from(xml.as_bytes().to_vec())).unwrap();
+    let rt = tokio::runtime::Builder::new_current_thread().enable_all().build().unwrap();
+    let (status, data, trailers, polls) = rt.block_on(async {
+        let resp = svc.call(req).await.unwrap();
+        let status = resp.status().as_u16();
+        let (_, mut body) = resp.into_parts();
+        let mut data = Vec::new(); let mut trailers: Option<Vec<(String, String)>> = None; let mut polls = 0;
+        loop {
+            if http_body::Body::is_end_stream(&body) { break; }
+            polls += 1;
+            match http_body_util::BodyExt::frame(&mut body).await {
+                None => break,
+                Some(Err(_)) => break,
+                Some(Ok(f)) => {
+                    if f.is_data() { data.extend_from_slice(&f.into_data().ok().unwrap()); }
+                    else if let Ok(t) = f.into_trailers() { trailers = Some(t.iter().map(|(n, v)| (n.to_string(), String::from_utf8_lossy(v.as_bytes()).into_owned())).collect()); }
+                }
+            }
+            if polls > 10_000 { break; }
+        }
+        (status, String::from_utf8_lossy(&data).into_owned(), trailers, polls)
+    });
+    let calls = log.lock().unwrap().clone();
+    let got = trailers.as_ref().is_some_and(|t| t.iter().any(|(n, v)| n == "x-amz-version-id" && v == "v-77"));
+    let ok = calls.iter().any(|c| c.starts_with("complete_multipart_upload@")) && got && data.contains("CompleteMultipartUploadResult");
+    json!({"violates": !ok, "input": {"request": "POST /bkt/key?uploadId=u1", "backend_response_header": "x-amz-version-id: v-77", "reader": "asks is_end_stream() before every poll_frame, like hyper"},
+           "expected": "the document as data, then a trailers frame carrying x-amz-version-id: v-77, before the body reports its end",
+           "observed": {"status": status, "data": data.chars().take(200).collect::<String>(), "trailers": trailers, "polls": polls, "backend_calls": calls}, "replay_args": ["keep-alive"]})
+}
+
+// ---- meta-headers: x-amz-meta-* request headers (C02) ---------------------------------------------------------------------------
+/// meta-headers: PutObject with user-metadata headers whose keys are ordinary, start with the prefix themselves, or ARE the prefix:
+/// the backend must receive exactly the keys that follow the first `x-amz-meta-`, each with its value; a header sent twice is refused
+pub fn meta_headers() -> Value {
+    let sets: Vec<(Vec<(&str, &str)>, Option<Vec<(&str, &str)>>)> = vec![
+        (vec![("x-amz-meta-foo", "plain")], Some(vec![("foo", "plain")])),
+        (vec![("x-amz-meta-x-amz-meta-foo", "nested")], Some(vec![("x-amz-meta-foo", "nested")])),
+        (vec![("x-amz-meta-foo", "plain"), ("x-amz-meta-x-amz-meta-foo", "nested")], Some(vec![("foo", "plain"), ("x-amz-meta-foo", "nested")])),
+        (vec![("x-amz-meta-x-amz-meta-", "v")], Some(vec![("x-amz-meta-", "v")])),
+        (vec![("x-amz-meta-a", "1"), ("x-amz-meta-b", " 2 "), ("x-amz-metadata", "no")], Some(vec![("a", "1"), ("b", " 2 ")])),
+        (vec![("x-amz-meta-dup", "1"), ("x-amz-meta-dup", "2")], None),
+    ];
+    let mut all = Vec::new(); let mut first_bad: Option<String> = None;
+    for (hs, want) in &sets {
+        let headers: Vec<(String, String)> = hs.iter().map(|(n, v)| ((*n).to_owned(), (*v).to_owned())).collect();
+        let o = call("PUT", "/bkt/key", &headers, b"x".to_vec(), "ok_default");
+        let input = o.inputs.first().cloned().unwrap_or_default();
+        let served = o.calls.iter().any(|c| c.starts_with("put_object@"));
+        let ok = match want {
+            None => !served && (400..500).contains(&o.status),
+            Some(pairs) => served && pairs.iter().all(|(k, v)| input.contains(&format!("{k:?}: {v:?}"))) && {
+                // nothing else: the number of entries printed inside metadata: Some({...})
+                input.find("metadata: {").map_or(false, |p| { let rest = &input[p..]; let end = rest.find('}').unwrap_or(rest.len()); rest[..end].matches("\": \"").count() == pairs.len() })
+            },
+        };
+        let name = format!("{hs:?}");
+        all.push(json!({"headers": hs.iter().map(|(n, v)| format!("{n}: {v}")).collect::<Vec<_>>(), "status": o.status, "input": input.chars().take(260).collect::<String>(), "ok": ok}));
+        if !ok && first_bad.is_none() { first_bad = Some(name); }
+    }
+    json!({"violates": first_bad.is_some(), "input": {"request": "PUT /bkt/key", "first_failing_header_set": first_bad},
+           "expected": "metadata = exactly { what follows the first `x-amz-meta-` -> the value } for every such header; a header sent twice is refused",
+           "observed": all, "replay_args": ["meta-headers"]})
+}
